@@ -226,6 +226,35 @@ pub fn run(ctx: &Ctx, rep: &mut Report) {
         vec![(255, 1), (257, 255), (100, 1000), (4095, 4097), (65535, 1)]
     };
     let mut fam_specs: Vec<GroupSpec> = Vec::new();
+    // grid of mid-size configurations around every chunk-size boundary (pattern families, first 12)
+    let grid: Vec<usize> = if ctx.thorough() {
+        vec![1, 2, 3, 4, 5, 7, 8, 9, 15, 16, 17, 31, 32, 33, 63, 64, 65, 100, 127, 128, 129, 255, 256, 257, 300, 511, 512, 513, 1000, 1023, 1024, 1025, 2047, 2048, 2049, 4095, 4096, 4097, 8191, 8192, 8193]
+    } else {
+        vec![1, 2, 3, 5, 8, 9, 16, 17, 31, 32, 33, 64, 65, 127, 128, 129, 255, 256, 257, 513, 1024, 1025, 2049, 4096, 4097]
+    };
+    let mut grid_specs = 0usize;
+    for (gi, &k) in grid.iter().enumerate() {
+        for (gj, &r) in grid.iter().enumerate() {
+            if k <= kmax && r <= kmax {
+                continue; // covered exhaustively above
+            }
+            for (ci, codec) in ["high", "low", "def"].into_iter().enumerate() {
+                if !spec_supports(Kind::parse(codec), k, r) {
+                    continue;
+                }
+                // quick: one codec per configuration in rotation, all three in thorough
+                if !ctx.thorough() && (gi + gj) % 3 != ci {
+                    continue;
+                }
+                let eng = if (gi + gj + ci) % 4 == 0 || !engines_fast().contains(&"avx2") { "nosimd" } else { "avx2" };
+                let data = if k + r > 3000 { "dense:2" } else if (gi + gj) % 2 == 0 { "dense:64" } else { "dense:66" };
+                fam_specs.push(GroupSpec { eng, codec, k, r, data: data.into(), soil: if k + r > 3000 { 0 } else { soil } });
+                grid_specs += 1;
+            }
+        }
+    }
+    rep.bound("grid_cfg", J::s(format!("{grid:?} squared ({grid_specs} (cfg,codec) groups; quick: codecs in rotation), first 12 patterns of the family list each")));
+    let grid_end = fam_specs.len();
     for &(k, r) in &big {
         let engs: Vec<&'static str> = if ctx.thorough() { engines_fast() } else { vec!["avx2"].into_iter().filter(|e| engines_fast().contains(e)).chain(if engines_fast().contains(&"avx2") { vec![] } else { vec!["nosimd"] }).collect() };
         for eng in engs {
@@ -258,7 +287,7 @@ pub fn run(ctx: &Ctx, rep: &mut Report) {
         let fams = families(g.k, g.r);
         let (mut n, mut adds, mut nt) = (0u64, 0u64, 0u64);
         let mut sample = None;
-        let cap = if thorough || s.k + s.r <= 1200 { usize::MAX } else { 14 };
+        let cap = if i < grid_end { 12 } else if thorough || s.k + s.r <= 1200 { usize::MAX } else { 14 };
         for (name, og, rg) in fams.iter().take(cap) {
             n += 1;
             adds += (og.len() + rg.len()) as u64 + 1;
